@@ -30,6 +30,12 @@ def gen_case(seed, tier, index=0):
     prog['k'] = rr.choice([0, 1, 2, 3, 9, 10, 11, 12])
     prog['reloads'] = []
     prog['uservars'] = False
+    if rr.random() < 0.3:
+        # two DoWhile documents running under the same controller (same stage or different stages)
+        prog['k'] = rr.choice([0, 1, 2, 3, 10])
+        e2.add_second_loop(rr, prog)
+        prog['second']['k'] = rr.choice([0, 1, 2, 3, 10, 11])
+        prog['reloads'] = []
     knobs = common.knobs_from(rr, tier)
     knobs['launch_delay'] = rr.choice([0.0, 0.0, 5.0])
     dur = rr.choice([0.3, 1.0, 3.0])
@@ -39,6 +45,24 @@ def gen_case(seed, tier, index=0):
 
 def shrink_candidates(case):
     p = case['prog']
+    if p.get('second'):
+        c = copy.deepcopy(case)
+        del c['prog']['second']
+        c['prog'].pop('order', None)
+        yield c
+        for which in ('first', 'second'):
+            lp = p if which == 'first' else p['second']
+            for k in (0, 1, lp['k'] - 1):
+                if 0 <= k < lp['k']:
+                    c = copy.deepcopy(case)
+                    (c['prog'] if which == 'first' else c['prog']['second'])['k'] = k
+                    yield c
+        for k, v in (('trace', 'none'), ('pool_delay_p', 0.0), ('stall_p', 0.0), ('preempt_p', 0.0)):
+            if case['knobs'].get(k) != v:
+                c = copy.deepcopy(case)
+                c['knobs'][k] = v
+                yield c
+        return
     for k in (0, 1, 9, 10, p['k'] - 1):
         if 0 <= k < p['k']:
             c = copy.deepcopy(case)
@@ -64,12 +88,17 @@ def run_case(case, schedule, opts):
     simk, R, K, root = common.setup_run(case, schedule, opts, 'c05rt')
     REC = R.REC
     prog = copy.deepcopy(case['prog'])
-    k_target = prog['k']
+    loops = e2.loops_of(prog)
+    ks = [lp['k'] for lp in loops]
+    k_target = ks if len(loops) > 1 else prog['k']
+    cond_k = {}
+    for lp in loops:
+        bs = {n: st for (n, st, _, _, _) in e2.body_components(lp)}
+        cond_k[(lp['import_stage'] + bs[e2.bn(lp, 'stop')], e2.bn(lp, 'stop'))] = lp['k']
     default = {'dur': case.get('dur', 1.0), 'exit': 'Success', 'outs': [[0.05, 'data.txt', 'x\n']]}
     R.CTX = ctx = R.RunContext(R.Plan({}, {}))
     result = {'violations': []}
     viol = result['violations']
-    outside_names = {'stage%d.%s' % (o.get('stage', 0), o['name']): o for o in prog['outside']}
     launches = []
 
     def V(sig, detail):
@@ -81,9 +110,10 @@ def run_case(case, schedule, opts):
         name = ref.split('.', 1)[1]
         spec.setdefault('dur', default['dur'])
         spec['outs'] = [[0.05, 'data.txt', 'x\n']]
-        if '#' in name and name.split('#', 1)[1] == 'stop':
+        ckey = (int(ref.split('.', 1)[0][5:]), name.split('#', 1)[1]) if '#' in name else None
+        if ckey in cond_k:
             it = int(name.split('#', 1)[0])
-            spec['outs'] = [[0.05, 'iteration.next', 'True\n' if it < k_target else 'False\n']]
+            spec['outs'] = [[0.05, 'iteration.next', 'True\n' if it < cond_k[ckey] else 'False\n']]
         if ref in outside_meta:
             wg = ctx.exp.experimentGraph
             spec_c = wg.graph.nodes[ref]['componentSpecification']
@@ -101,10 +131,12 @@ def run_case(case, schedule, opts):
     outcomes = []
     exp = None
     try:
-        main, dw = e2.render_loop(prog)
-        for o in prog['outside']:
-            outside_meta['stage%d.%s' % (o['stage'], o['name'])] = o
-        exp = R.build_experiment(main, root, extra_files={'conf/dowhile.yaml': dw})
+        main, files = e2.render_package(prog)
+        for li, lp in enumerate(loops):
+            for o in lp['outside']:
+                o['loop'] = li
+                outside_meta['stage%d.%s' % (o['stage'], o['name'])] = o
+        exp = R.build_experiment(main, root, extra_files={'conf/%s' % f: t for f, t in files.items()})
         ctx.exp = exp
         controller, comps = R.new_controller(exp)
         ctx.controller = controller
@@ -131,7 +163,9 @@ def run_case(case, schedule, opts):
                     viol.append(v)
                 REC.count('probe.loop_judged')
         # at every task creation of an outside consumer: loop terminated and wired to iteration k
-        e_res = e2.expected_resolution(exp, prog, k_target)
+        e_res = {}
+        for lp in loops:
+            e_res.update(e2.expected_resolution(exp, lp, lp['k']))
         ev = REC.events
         last_loop_exit = max([e[0] for e in ev if e[2] == 'ctlstate' and e[3] and '#' in e[3]] or [0])
         for (ref, vals, _) in launches:
@@ -143,17 +177,21 @@ def run_case(case, schedule, opts):
         for e in ev:
             if e[2] == 'launch' and e[3] in outside_meta:
                 done = set(x[3] for x in ev if x[2] == 'ctlstate' and x[0] < e[0] and x[4]['new'] in ('finished', 'failed', 'component_shutdown'))
-                expected_nodes, _, _ = e2.expected_loop(prog, k_target)
+                lp = loops[outside_meta[e[3]].get('loop', 0)]
+                expected_nodes, _, _ = e2.expected_loop(lp, lp['k'])
                 loop_nodes = [n for n in expected_nodes if '#' in n]
-                tgt = outside_meta[e[3]]['target']
-                need = [n for n in loop_nodes if n.split('#', 1)[1].rstrip('0123456789') in (tgt, 'stop')
-                        or n.split('#', 1)[1] in (tgt, 'stop')]
+                tgt = e2.bn(lp, outside_meta[e[3]]['target'])
+                stopn = e2.bn(lp, 'stop')
+                need = [n for n in loop_nodes if n.split('#', 1)[1].rstrip('0123456789') in (tgt, stopn)
+                        or n.split('#', 1)[1] in (tgt, stopn)]
                 missing = [n for n in need if n not in done]
                 if missing:
                     V('launch:outside-consumer-before-loop-terminated', {'consumer': e[3], 'not_final': missing[:5], 'k': k_target})
-        if k_target >= 10:
+        if max(ks) >= 10:
             REC.count('probe.k_ge_10')
-        REC.count('probe.iterations', k_target)
+        if len(loops) > 1:
+            REC.count('probe.two_documents')
+        REC.count('probe.iterations', sum(ks))
     result['sample'] = {'program': prog, 'outcomes': outcomes,
                         'history': [[e[0], e[1], e[2], e[3]] for e in REC.events if e[2] in ('launch', 'exit', 'submit')][:120]}
     return common.finish_run(simk, R, K, root, result)
